@@ -53,7 +53,8 @@ def generate(rec, repo):
                 covers[path_sig] = {"name": f"{os.path.basename(rec['file'])}::{rec['qualname']}[{rec['inst_name']}]::cover@{path_sig}", "smt2": c.to_smt2()}
     return {"function": fname_of(rec), "file": rec["file"], "qualname": rec["qualname"], "inst": rec["inst_name"], "sha": eng.sha, "pre_sat": eng.pre_sat,
             "props": rec["props"], "gen_s": round(time.time() - t, 2), "paths_pruned": eng.stats["paths_pruned"], "prune_max_s": round(eng.stats.get("prune_max_s", 0), 2), "jobs": jobs,
-            "covers": list(covers.values()), "lemma_deps": rec["lemma_deps"], "assumes": eng.assume_log if hasattr(eng, "assume_log") else []}
+            "covers": list(covers.values()), "lemma_deps": rec["lemma_deps"], "assumes": eng.assume_log if hasattr(eng, "assume_log") else [],
+            "assumed_callee_contracts": [{"callee": k, "contract": v["assumed"]} for k, v in (rec["callees"] or {}).items() if isinstance(v, dict) and v.get("assumed")]}
 
 
 def _gen(args):
